@@ -237,23 +237,48 @@ impl<U> NumDecompressor<U> where U: UnsignedLike {
     };
   }
 
+  // On insufficient data, leaves the reader either at the start of the number
+  // block (if none of its numbers could be decoded) or after its last
+  // complete number, with the rest of the block recorded in incomplete_prefix.
   fn decompress_num_block(
     &mut self,
     reader: &mut BitReader,
     unsigneds: &mut Vec<U>,
     batch_size: usize,
   ) -> QCompressResult<()> {
-    let p = self.huffman_table.search_with_reader(reader)?;
+    let start_bit_idx = reader.bit_idx();
+    let p = match self.huffman_table.search_with_reader(reader) {
+      Ok(p) => p,
+      Err(e) => {
+        reader.seek_to(start_bit_idx);
+        return Err(e);
+      }
+    };
 
-    let reps = match p.run_len_jumpstart {
+    let full_reps = match p.run_len_jumpstart {
       None => 1,
       // we stored the number of occurrences minus 1 because we knew it's at least 1
-      Some(jumpstart) => {
-        let full_reps = reader.read_varint(jumpstart)? + 1;
-        self.limit_reps(p, full_reps, batch_size - unsigneds.len())
+      Some(jumpstart) => match reader.read_varint(jumpstart) {
+        Ok(reps_minus_one) => reps_minus_one + 1,
+        Err(e) => {
+          reader.seek_to(start_bit_idx);
+          return Err(e);
+        }
       },
     };
-    self.decompress_offsets(reader, unsigneds, p, reps)
+    let reps = min(full_reps, batch_size - unsigneds.len());
+    let n_before = unsigneds.len();
+    let res = self.decompress_offsets(reader, unsigneds, p, reps);
+    let n_decoded = unsigneds.len() - n_before;
+    if n_decoded == 0 && res.is_err() {
+      reader.seek_to(start_bit_idx);
+    } else if full_reps > n_decoded {
+      self.state.incomplete_prefix = Some(IncompletePrefix {
+        prefix: p,
+        remaining_reps: full_reps - n_decoded,
+      });
+    }
+    res
   }
 
   // errors on insufficient data, but updates unsigneds with last complete number
